@@ -31,7 +31,7 @@ def floor(tier):
 
 
 def cases(tier, rng):
-    n = 64 if tier == "quick" else 1200
+    n = 64 if tier == "quick" else 4000
     out = []
     for i in range(n):
         cfg = cards.rand_config(rng, ptos=(0, 1, 1, 2), sv=True)
